@@ -714,9 +714,9 @@ def model_writer_lines(boundary: bytes, wparts):
             "SPEC %s %s" % (fw.hexs(boundary), fw.hexs(wire))]
 
 
-def compare_obs(model: str, impl: str):
+def compare_obs(model, impl: str):
     """None = agree / not comparable, else a short reason"""
-    if model.endswith("UNMODELLED"):
+    if model is None or model.endswith("UNMODELLED"):
         return None
     m = model.replace("ERR FUEL", "NONTERMINATION")
     if m == impl:
@@ -759,11 +759,11 @@ def suite_roundtrip(ctx, exe, specs=None):
             ctx.count("kind:" + spec["kind"])
             ctx.count("wire:<64" if len(wire) < 64 else "wire:<1k" if len(wire) < 1024 else "wire:<8k" if len(wire) < 8192 else "wire:>=8k")
             ctx.count("segs:1" if len(segs) == 1 else "segs:<=16" if len(segs) <= 16 else "segs:<=256" if len(segs) <= 256 else "segs:>256")
-    model = fw.run_model(exe, lines)
+    model = run_model_opt(exe, lines)
     for (case, impl, bad, final, wl, ns), m in zip(cases, model):
         ctx.case((json.dumps(case, sort_keys=True), impl), nontrivial=impl.startswith("P "))
         ctx.count("final:" + final.split(":")[0])
-        if m.endswith("UNMODELLED"):
+        if m is not None and m.endswith("UNMODELLED"):
             ctx.count("model:unmodelled")
         why = compare_obs(m, impl)
         if why:
@@ -774,10 +774,15 @@ def suite_roundtrip(ctx, exe, specs=None):
                     "segments": cases[-1][0]["segs"][:8], "sched": cases[-1][0]["sched"], "impl": cases[-1][1][:300]})
     ctx.close_suite("roundtrip", len(cases))
     # writer framing + size: model encode/size against the real writer
-    ml = fw.run_model(exe, [x for (_, _, _, wl) in wlines for x in wl[:3]])
+    ml = run_model_opt(exe, [x for (_, _, _, wl) in wlines for x in wl[:3]])
     ran = 0
     for i, (spec, wire, size, wl) in enumerate(wlines):
         enc, sz, sp = ml[3 * i], ml[3 * i + 1], ml[3 * i + 2]
+        if enc is None:
+            ran += 1
+            if size is not None and size != len(wire):
+                report(ctx, {"suite": "writer", "spec": spec}, [("size", f"declared size {size} != {len(wire)} bytes written", {})])
+            continue
         want_blocks = wl[3]
         delim = b"\r\n--" + spec["boundary"].encode("ascii")
         clean = all(delim not in blk + delim[:-1] for blk in want_blocks)
@@ -896,11 +901,20 @@ SIGNATURES = {
 }
 
 
+def run_model_opt(exe, lines):
+    """model answers, or None per line when the model runner could not be built (translator / extraction broke):
+    the implementation-side oracle still runs so that a concrete failing input is reported"""
+    if exe is None:
+        return [None] * len(lines)
+    return fw.run_model(exe, lines)
+
+
 def run(ctx):
     ok, exe = build_model()
     ctx.oblige("model-runner-build", "correspondence", ok, "" if ok else exe)
     if not ok:
-        return
+        exe = None
+        ctx.notes.append("model runner unavailable: suites ran the implementation-side oracle only")
     run_corpus(ctx, exe)
     suite_roundtrip(ctx, exe)
     suite_mutants(ctx, exe)
@@ -936,8 +950,8 @@ def replay_case(exe, case):
         bad = oracle_roundtrip(spec, origs, wparts, wire, size, rec, case["sched"])
         impl = obs_of_impl(rec)
         boundary = rec.get("boundary") or (b"--" + spec["boundary"].encode())
-        m = fw.run_model(exe, [model_line(boundary[2:], spec["kind"] in ("form-data", "formdata"), segs, case["eager"],
-                                          case["sched"], case.get("limits") or {})])[0]
+        m = run_model_opt(exe, [model_line(boundary[2:], spec["kind"] in ("form-data", "formdata"), segs, case["eager"],
+                                            case["sched"], case.get("limits") or {})])[0]
         return {"impl": impl, "model": m, "disagree": bool(compare_obs(m, impl)), "bad": bad, "violates": bool(bad),
                 "wire": wire.hex()}
     if suite in ("mutants", "limits"):
@@ -957,8 +971,8 @@ def replay_case(exe, case):
             elif case.get("fed_bound") is not None and rec["fed"] > case["fed_bound"]:
                 bad.append(("limit-late", f"{case['what']}: limit enforced after {rec['fed']} bytes (bound {case['fed_bound']})", {"fed": rec["fed"]}))
         rb = rec.get("boundary") or b"--?"
-        m = fw.run_model(exe, [model_line(rb[2:], bool(case.get("form")), segs, eager, case["sched"], limits)])[0]
-        return {"impl": impl[-3000:], "model": m[-3000:], "disagree": bool(compare_obs(m, impl)), "bad": bad, "violates": bool(bad)}
+        m = run_model_opt(exe, [model_line(rb[2:], bool(case.get("form")), segs, eager, case["sched"], limits)])[0]
+        return {"impl": impl[-3000:], "model": (m or "")[-3000:], "disagree": bool(compare_obs(m, impl)), "bad": bad, "violates": bool(bad)}
     if suite == "writer":
         spec = case["spec"]
         w, origs = build_writer(spec)
@@ -970,7 +984,7 @@ def replay_case(exe, case):
 
 def replay(ctx, case):
     ok, exe = build_model()
-    return replay_case(exe, case)
+    return replay_case(exe if ok else None, case)
 
 
 # ----------------------------------------------------------------------------------------------
@@ -1064,11 +1078,11 @@ def suite_mutants(ctx, exe):
             rb = rec.get("boundary") or (b"--" + boundary)
             lines.append(model_line(rb[2:], case["form"], segs, eager, sched, limits))
             cases.append((case, impl, bad, rec["final"]))
-    model = fw.run_model(exe, lines)
+    model = run_model_opt(exe, lines)
     for (case, impl, bad, final), m in zip(cases, model):
         ctx.case((case["wire"], json.dumps(case["segs"]), json.dumps(case["sched"]), impl), nontrivial=impl.startswith("P "))
         ctx.count("mutants:final:" + final.split("(")[0][:24])
-        if m.endswith("UNMODELLED"):
+        if m is not None and m.endswith("UNMODELLED"):
             ctx.count("model:unmodelled")
         if compare_obs(m, impl):
             ctx.disagreement("mutants", case, m[:2000], impl[:2000])
@@ -1133,7 +1147,7 @@ def suite_limits(ctx, exe):
         impl = obs_of_impl(rec)
         lines.append(model_line(B, False, segs, False, sched, limits))
         cases.append((case, impl, bad, wire))
-    model = fw.run_model(exe, lines)
+    model = run_model_opt(exe, lines)
     for (case, impl, bad, wire), m in zip(cases, model):
         ctx.case((case["what"], case["k"], impl[-40:]), nontrivial=True)
         ctx.count("limits:" + impl.split(" | ")[-1])
